@@ -174,7 +174,7 @@ def inst_stft(fn):
     return out
 
 
-_st = Contract("pulsarbat.contrib.misc.stft", spec_stft, inst_stft("stft"), props={"C20": NO_FRAME, "C14": ONLY_FRAME, "C09": NO_FRAME})
+_st = Contract("pulsarbat.contrib.misc.stft", spec_stft, inst_stft("stft"), props={"C20": None, "C14": ONLY_FRAME, "C09": NO_FRAME})
 _st.theorems = stft_theorems
 
 
@@ -213,7 +213,7 @@ def spec_istft(c, z, window="boxcar", nperseg=256, noverlap=0, nfft=None):
     return construct(c, g.cls, y, attrs)
 
 
-_is = Contract("pulsarbat.contrib.misc.istft", spec_istft, inst_stft("istft"), props={"C20": NO_FRAME, "C14": ONLY_FRAME, "C09": NO_FRAME})
+_is = Contract("pulsarbat.contrib.misc.istft", spec_istft, inst_stft("istft"), props={"C20": None, "C14": ONLY_FRAME, "C09": NO_FRAME})
 _is.tol_fn = _stft_tol
 CONTRACTS.append(_is)
 
